@@ -17,6 +17,9 @@ def run(ctx):
     from . import C06, C08, controls
     ctx.run_rule("R7", lambda c: controls.rule_no_manual_send_sync(c, f, "R7", "a local batch is all-or-nothing only if nobody else can update the batch between the claim and clear() of "
                                                                            "one flush; that exclusivity comes from LocalHistogram being !Sync"))
+    from . import C12
+    ctx.rule("R8", "a local batch is handed over exactly once (shared with C12.L5): flush clears the batch, a clone (start_timer clones) starts cleared, Drop flushes")
+    ctx.run_rule("R8", lambda c: C06._as(c, "R8", lambda s_: C12.rule_local_histogram(s_, f, "L5")))
     ctx.rule("R6", "an observation is recorded in the bucket the snapshot attributes it to, on the direct and on the local path (shared with C08.R4): first bound with v <= bound, "
                    "count and sum unconditional")
     ctx.run_rule("R6", lambda c: C06._as(c, "R6", lambda s_: C08.rule_R4(s_, f)))
